@@ -121,7 +121,7 @@ class ShelveRig:
 
         install(real_lock)
         self.root = world.fresh_dir('db')
-        for sub in ('db', 'dbs', 'stg', 'logs'):
+        for sub in ('db', 'dbs', 'stg', 'logs', 'per'):
             os.mkdir(os.path.join(self.root, sub))
         c = dawgie.context
         c.db_impl = 'shelve'
@@ -131,6 +131,7 @@ class ShelveRig:
         c.data_dbs = os.path.join(self.root, 'dbs')
         c.data_stg = os.path.join(self.root, 'stg')
         c.data_log = os.path.join(self.root, 'logs')
+        c.data_per = os.path.join(self.root, 'per')  # resources diary
         c.db_lock = False
         self.db = dawgie.db
         self.db.close()
